@@ -140,11 +140,15 @@ def tcoefLoop (d : DecOpts) (hdr : PicHdr) (running : Nat) : Nat → List TCoef 
       let acc := acc ++ [{ isShort := true, run := run, level := if sign == 0 then (level : Int) else -(level : Int) }]
       if last then pure acc else tcoefLoop d hdr running fuel acc
 
+/-- `IntraDc::from_u8` -/
+def intraDcOfByte (v : Nat) : Option Nat := if v == 0 || v == 128 then none else some v
+
 /-- `decode_block` -/
 def decodeBlock (d : DecOpts) (hdr : PicHdr) (running : Nat) (t : MbType) (tcoefPresent : Bool) : P Block := do
   let dc ← (if t.isIntra then do
       let v ← readU8
-      if v == 0 || v == 128 then P.fail .invalidIntraDc else pure (some v)
+      let dc ← P.okOr (intraDcOfByte v) .invalidIntraDc
+      pure (some dc)
     else pure none)
   if tcoefPresent then fun c => (tcoefLoop d hdr running (c.bits.length + 1) [] >>= fun tc => pure { intradc := dc, tcoef := tc }) c
   else pure { intradc := dc, tcoef := [] }
